@@ -192,6 +192,12 @@ func observe(db *DB, kvKeys [][]byte, structures bool) []obsItem {
 			it := obsItem{tag: "getall:" + b, err: err != nil}
 			if err == nil {
 				for _, e := range es {
+					if e == nil {
+						// a successful scan must not contain holes
+						vFail("obs.nil-entry-in-scan-result")
+						it.seq = append(it.seq, []byte("<nil>"), []byte("<nil>"))
+						continue
+					}
 					it.seq = append(it.seq, e.Key, e.Value)
 				}
 			}
